@@ -153,6 +153,30 @@ func checkC06(rd *RunData) []Violation {
 		}
 		return r.Op.Cost
 	}
+	// does some key receive cost changes from two different tasks (the owner's
+	// Sets and another client's load-and-store)? Their asynchronous cost deltas
+	// can then be applied out of order (see C07's known finding).
+	costWriters := map[int]map[int]int64{}
+	noteWriter := func(key, task int, c int64) {
+		if costWriters[key] == nil {
+			costWriters[key] = map[int]int64{}
+		}
+		costWriters[key][task] = c
+	}
+	for _, r := range rd.Recs {
+		if r.Op.Kind == "set" && r.Client >= 0 {
+			noteWriter(r.Op.Key, rd.ClientTask[r.Client+1], cost(r))
+		}
+	}
+	for _, l := range rd.Loader {
+		noteWriter(l.Key, l.Task, l.Cost)
+	}
+	writersCls := "single-writer-costs"
+	for _, m := range costWriters {
+		if len(m) > 1 {
+			writersCls = "concurrent-cost-updates"
+		}
+	}
 	evicted := map[KV]uint64{}
 	for _, l := range rd.Listener {
 		if l.Reason == 1 {
@@ -160,7 +184,7 @@ func checkC06(rd *RunData) []Violation {
 				evicted[KV{l.Key, l.Val}] = l.Seq
 			}
 			if !pressure {
-				vs = append(vs, Violation{"C06/evicted-without-pressure", fmt.Sprintf("key %d value %d was EVICTED although the total cost of all keys of the run never exceeds MaxSize %d", l.Key, l.Val, cfg.MaxSize)})
+				vs = append(vs, Violation{"C06/evicted-without-pressure/" + writersCls, fmt.Sprintf("key %d value %d was EVICTED although the total cost of all keys of the run never exceeds MaxSize %d", l.Key, l.Val, cfg.MaxSize)})
 			}
 		}
 	}
